@@ -5,7 +5,7 @@ Obligations checked on every run (see design/C04.md):
   * Lean theorems of GojaModel.C04.Props (audited for axioms);
   * tie  (regenerated): KeyKindCopies — branch structure of the triplicated method families (GojaModel.C04.Tie);
   * corr A (EXHAUSTIVE): every cell of baseObject._defineOwnProperty (66 existing shapes x 1296 descriptors x 2) through the
-    hook VerifC04DefineOwn against the Lean transcription (variant `cur` or variant `fixed`), each implementation result
+    hook VerifC04DefineOwn against the Lean transcription of the function (exact equality), each implementation result
     judged against ValidateAndApplyPropertyDescriptor by the Lean driver;
   * corr B: op sequences over modelled kinds, every result and every dumped state diffed with the spec-level Lean model;
   * monitor: the essential invariants (Lean `monitorStep`/`snapOk`) on the dumped states of ALL kinds, modelled or not;
@@ -14,19 +14,14 @@ Obligations checked on every run (see design/C04.md):
 import json, os, subprocess, sys, time, glob
 from vlib import *
 
-MODELLED = ["plain", "nullproto", "arrow", "bound", "class"]
-MONITORED = ["func", "args", "sargs", "strobj", "u8", "math", "global", "gomap", "goslice", "gostruct", "dyn"]
+MODELLED = ["plain", "nullproto", "arrow", "bound", "class", "strobj", "sargs"]
+MONITORED = ["func", "args", "u8", "math", "global", "gomap", "goslice", "gostruct", "dyn"]
 WRAPPERS = {"gomap", "goslice", "gostruct", "dyn"}          # documented non-ordinary variants: key order not checked
-DEFAULT_PROTO = {"plain": "O", "nullproto": "null", "arrow": "F", "bound": "F", "class": "F"}
+DEFAULT_PROTO = {"plain": "O", "nullproto": "null", "arrow": "F", "bound": "F", "class": "F", "strobj": "?", "sargs": "O"}
 
-KNOWN_CLASSES = {
-    "D1": "defineOwn:nonconfigurable-kind-change-accepted",
-    "D2": "defineOwn:data-to-accessor-keeps-writable",
-    "D3": "defineOwn:accessor-to-data-keeps-accessor-fields",
-}
-SIG_FUNC_ORDER = "funcObject:lazy-prototype-listed-before-index-keys"
-SIG_DYN_CYCLE = "dynamicObject:setPrototypeOf-cycle"
-SIG_NIL_PANIC = "exotic-defineProperty-nil-deref:"          # + kind
+SIG_NIL_PANIC = "exotic-defineProperty-nil-deref:"          # + kind (still known for goslice only)
+SIG_STR_DEF_IDX = "stringObject:defineOwnPropertyIdx-rejects-compatible-descriptor-on-character-index"
+SIG_STR_GET_IDX = "stringObject:getOwnPropIdx-misses-own-index-property-beyond-length"
 SIG_GOSLICE_GROWS = "goslice:non-extensible-slice-grows"
 SIG_GOSLICE_SHRINKS = "goslice:length-shrink-removes-nonconfigurable-elements"
 
@@ -58,7 +53,7 @@ def table_cells():
 
 
 def classify_cell(cell, verdict):
-    """known defect class of a cell on which the implementation's result contradicts the spec / breaks the rep invariant"""
+    """descriptive class (for the signature) of a cell on which the implementation's result contradicts the spec / breaks the rep invariant"""
     ek, ev, ew, ee, ec, ea, eg, es, dv, dw, de, dc, dg, ds, ext = cell
     d_acc = dg != -2 or ds != -2
     d_data = dv != -1 or dw != 0
@@ -100,6 +95,15 @@ def run_sharded(cmd, lines_by_shard, timeout=900):
     return res
 
 
+def run_sharded_retry(cmd, lines_by_shard, timeout=900):
+    """run_sharded, but a shard that timed out (slow machine) is inconclusive and is run again, alone, with a longer timeout"""
+    res = run_sharded(cmd, lines_by_shard, timeout)
+    for i, r in enumerate(res):
+        if r[0] == 124:
+            res[i] = run_sharded(cmd, [lines_by_shard[i]], timeout * 4)[0]
+    return res
+
+
 def shard(items, n):
     k = max(1, (len(items) + n - 1) // n)
     return [items[i:i + k] for i in range(0, len(items), k)]
@@ -108,46 +112,42 @@ def shard(items, n):
 def table_check(ctx, h, model):
     cells = table_cells()
     ctx.stats["table_cells"] = len(cells)
-    lines0 = ["T 0 " + " ".join(map(str, c)) for c in cells]
+    lines0 = ["T " + " ".join(map(str, c)) for c in cells]
     nsh = 8
     sh = shard(lines0, nsh)
     impl = []
-    for rc, out, err in run_sharded([h], sh):
+    for rc, out, err in run_sharded_retry([h], sh):
         impl += out
     if len(impl) != len(cells):
         ctx.obligation("corr:defineOwn-table(exhaustive)", "correspondence", False, "harness produced %d lines for %d cells" % (len(impl), len(cells)))
-        return None
+        return False
     if model is None:
-        return None
+        return False
     ctx.count(len(cells))
-    # one pass of the Lean driver: for every cell, is the implementation's result the `cur` transcription's, the `fixed`
-    # transcription's, and does it agree with ValidateAndApplyPropertyDescriptor / keep the representation invariant
+    # one pass of the Lean driver: for every cell, is the implementation's result the transcription's, and does it agree
+    # with ValidateAndApplyPropertyDescriptor / keep the representation invariant
     jl = ["J " + " ".join(map(str, cells[i])) + " " + impl[i] for i in range(len(cells))]
     jout = []
-    for rc, out, err in run_sharded([model], shard(jl, nsh)):
+    for rc, out, err in run_sharded_retry([model], shard(jl, nsh)):
         jout += out
     if len(jout) != len(cells):
         ctx.obligation("corr:defineOwn-table(exhaustive)", "correspondence", False, "model driver produced %d lines for %d cells" % (len(jout), len(cells)))
-        return None
-    d0 = [i for i in range(len(cells)) if jout[i][0] != "1"]
-    d1 = [i for i in range(len(cells)) if jout[i][1] != "1"]
+        return False
+    d0 = [i for i in range(len(cells)) if jout[i][:1] != "1"]
     verdicts = [l.split(" ", 1)[1] if " " in l else "?" for l in jout]
-    variant = "cur" if not d0 else ("fixed" if not d1 else None)
-    ctx.stats["table_variant_matched"] = variant
-    ctx.stats["table_diff_vs_cur"] = len(d0)
-    ctx.stats["table_diff_vs_fixed"] = len(d1)
+    ctx.stats["table_diff_vs_transcription"] = len(d0)
     ctx.stats["table_results"] = {"reject": sum(1 for x in impl if x == "R"), "plain": sum(1 for x in impl if x.startswith("P 1")),
                                   "valueProperty": sum(1 for x in impl if x.startswith("P 2"))}
     for c in cells:
         ctx.nontriv(("cell", c))              # every cell is a distinct (existing shape, descriptor shape, extensible) triple
     ctx.stats["table_distinct_cells"] = len(set(cells))
-    ok = variant is not None
-    detail = "implementation == Lean transcription variant %s on all %d cells" % (variant, len(cells))
+    ok = not d0
+    detail = "implementation == Lean transcription of _defineOwnProperty on all %d cells" % len(cells)
     if not ok:
-        k = (d0 or d1)[0]
-        a, b = single_run(h, model, ["T 0 " + " ".join(map(str, cells[k])), "T 1 " + " ".join(map(str, cells[k]))])
-        detail = ("implementation differs from `cur` on %d cells and from `fixed` on %d cells; first: cell=%s impl=%s cur=%s fixed=%s"
-                  % (len(d0), len(d1), cells[k], impl[k], b[0] if b else "?", b[1] if len(b) > 1 else "?"))
+        k = d0[0]
+        a, b = single_run(h, model, ["T " + " ".join(map(str, cells[k]))])
+        detail = ("implementation differs from the transcription on %d cells; first: cell=%s impl=%s model=%s"
+                  % (len(d0), cells[k], impl[k], b[0] if b else "?"))
     ctx.obligation("corr:defineOwn-table(exhaustive)", "correspondence", ok, detail)
     vc = {}
     for v in verdicts:
@@ -161,16 +161,13 @@ def table_check(ctx, h, model):
     ctx.stats["table_defect_cells"] = {str(k): len(v) for k, v in classes.items()}
     for cl, idxs in classes.items():
         i = idxs[0]
-        if cl in KNOWN_CLASSES:
-            sig = KNOWN_CLASSES[cl]
-        else:
-            sig = "defineOwn:cell:" + "_".join(map(str, cells[i]))
+        sig = "defineOwn:%s:cell:%s" % (cl or "other", "_".join(map(str, cells[i])))
         ctx.violation(sig, "_defineOwnProperty contradicts ValidateAndApplyPropertyDescriptor (%s) on %d cells, e.g. cell %s -> %s"
                       % (verdicts[i], len(idxs), cells[i], impl[i]),
                       {"kind": "input", "mode": "table", "cell": list(cells[i]), "observed": impl[i], "verdict": verdicts[i],
                        "cells_in_class": len(idxs),
                        "cell_format": "ek ev ew ee ec ea eg es | dv dw de dc dg ds | ext (see harness/cmd/c04, Driver.lean tableCell)"})
-    return variant
+    return ok
 
 
 # ----------------------------------------------------------------------------------------------- sequences (corr B)
@@ -232,7 +229,7 @@ def gen_case(rng, monitored=False, maxops=40):
         if kind in DEFAULT_PROTO:
             proto = proto if proto != "-" else DEFAULT_PROTO[kind]
         objs.append((kind, proto))
-    extra = None
+    extra = ["slength", "scallee", "sprototype", "sname", "i0", "I1"]
     if monitored:
         extra = ["slength", "sprototype", "sname", "i0", "i1", "I0", "sa", "scallee", "sA", "sB"]
     nops = rng.randrange(8, maxops + 1)
@@ -291,7 +288,7 @@ def strip_impl(l):
 
 
 def strip_model(l):
-    return l.replace(" !kind", "")
+    return l
 
 
 def run_cases(ctx, h, model, cases):
@@ -299,8 +296,8 @@ def run_cases(ctx, h, model, cases):
     nsh = 12
     chunks = shard(cases, nsh)
     lines_by = [[l for c in ch for l in case_lines(c)] for ch in chunks]
-    impl_res = run_sharded([h], lines_by)
-    model_res = run_sharded([model], lines_by) if model else [(0, [], "")] * len(chunks)
+    impl_res = run_sharded_retry([h], lines_by)
+    model_res = run_sharded_retry([model], lines_by) if model else [(0, [], "")] * len(chunks)
     out = []
     for ch, (rc1, o1, e1), (rc2, o2, e2) in zip(chunks, impl_res, model_res):
         p = 0
@@ -363,8 +360,6 @@ def classify_monitor(case, mon, idxs, j, verdict):
         if mon[q].split()[1] == str(oid):
             prev = q
             break
-    if kind == "func" and "key-order" in verdict and "step" not in verdict and ml.split("keys=[")[1].startswith("sprototype"):
-        return SIG_FUNC_ORDER
     if kind == "goslice" and verdict.strip() == "bad step" and prev is not None and " ext=f" in mon[prev]:
         a, b = parse_props(mon[prev]), parse_props(ml)
         if set(a) < set(b) and all(k.startswith("i") for k in set(b) - set(a)):
@@ -373,28 +368,6 @@ def classify_monitor(case, mon, idxs, j, verdict):
         a, b = parse_props(mon[prev]), parse_props(ml)
         if set(b) < set(a) and all(k.startswith("i") for k in set(a) - set(b)):
             return SIG_GOSLICE_SHRINKS
-    if verdict.strip() == "bad step" and prev is not None:
-        a, b = parse_props(mon[prev]), parse_props(ml)
-        ops = [lines[x].split() for x in range(idxs[prev] + 1, idxs[j] + 1)]
-        changed = [k for k, v in a.items() if v[-1] == "f" and (k not in b or b[k][0] != v[0] or b[k][-1] != "f" or b[k][-2] != v[-2])]
-        explained = bool(changed)
-        for k in changed:
-            if k not in b or b[k][0] == a[k][0]:
-                explained = False
-                break
-            hit = False
-            for op in ops:
-                if op[0] == "def" and op[2] == "o%d" % oid and norm_key(op[3]) == k:
-                    dv, dw, dg, ds = op[4], op[5], op[8], op[9]
-                    if a[k][0] == "D" and dv == "-" and dw == "-" and dg in ("-", "u") and ds in ("-", "u") and (dg, ds) != ("-", "-"):
-                        hit = True
-                    if a[k][0] == "A" and dv == "-" and dw != "-":
-                        hit = True
-            if not hit:
-                explained = False
-                break
-        if explained:
-            return KNOWN_CLASSES["D1"]
     return "monitor:%s:%s" % (kind, verdict.replace(" ", "_"))
 
 
@@ -408,10 +381,20 @@ def first_diff(case, impl, mdl):
     return None
 
 
+def _run1(exe, data):
+    # a slow machine is not a finding: generous timeout, one retry, then an empty (inconclusive) answer
+    for attempt in range(2):
+        try:
+            return subprocess.run([exe], input=data, stdout=subprocess.PIPE, stderr=subprocess.PIPE, text=True,
+                                  timeout=600 * (attempt + 1)).stdout.splitlines()
+        except subprocess.TimeoutExpired:
+            continue
+    return []
+
+
 def single_run(h, model, lines):
-    r1 = subprocess.run([h], input="\n".join(lines) + "\n", stdout=subprocess.PIPE, stderr=subprocess.PIPE, text=True, timeout=60)
-    r2 = subprocess.run([model], input="\n".join(lines) + "\n", stdout=subprocess.PIPE, stderr=subprocess.PIPE, text=True, timeout=60)
-    return r1.stdout.splitlines(), r2.stdout.splitlines()
+    data = "\n".join(lines) + "\n"
+    return _run1(h, data), _run1(model, data)
 
 
 def shrink_case(ctx, h, model, case):
@@ -436,23 +419,20 @@ def shrink_case(ctx, h, model, case):
     return {"objs": case["objs"], "ops": small, "monitored": False}
 
 
-def seq_signature(case, impl, mdl, variant):
-    """class of a minimised diverging sequence"""
-    ops = case["ops"]
-    marker = any(" !kind" in l for l in mdl)
-    if marker and variant == "cur":
-        # which known class: look at the marked define
-        for i, l in enumerate(mdl):
-            if " !kind" in l:
-                op = case_lines(case)[i].split()
-                d_acc = op[8] != "-" or op[9] != "-"
-                a, _ = strip_impl(impl[i])
-                ra, rm = a.split(" ")[0], strip_model(l).split(" ")[0]
-                if ra != rm:
-                    return KNOWN_CLASSES["D1"]
-                return KNOWN_CLASSES["D2"] if d_acc else KNOWN_CLASSES["D3"]
-    shape = "-".join(o[0] + o[1] for o in ops)[:80]
-    return "seq:" + shape
+def seq_signature(case, lines=None, dd=None):
+    """class of a diverging sequence.  Two known defects of the String exotic object's NUMBER-keyed method copies are
+    recognised by the first diverging op (a String object in the case, key given as a number); everything else gets the
+    op/entry-point shape of the (minimised) sequence."""
+    if lines is not None and dd is not None and dd < len(lines) and any(k == "strobj" for k, _ in case["objs"]):
+        op = lines[dd].split()
+        key = op[3] if len(op) > 3 and op[0] in ("def", "set", "get", "del", "has", "hasown") else ""
+        if key.startswith("i") and key[1:].isdigit():
+            if int(key[1:]) < 2:
+                if op[0] == "def" and case["objs"][int(op[2][1:])][0] == "strobj":
+                    return SIG_STR_DEF_IDX
+            else:
+                return SIG_STR_GET_IDX
+    return "seq:" + "-".join(o[0] + (o[1] if o[0] not in ("frz", "seal") else "") for o in case["ops"])[:80]
 
 
 def main(ctx):
@@ -482,7 +462,7 @@ def main(ctx):
     if not ok:
         # a broken theorem / tie must not take the model driver away from the search
         sh(["lake", "build", "model_c04"], cwd=LEAN, timeout=3000)
-    names = ctx.audit("GojaModel.C04.Props", expect_min=14)
+    names = ctx.audit("GojaModel.C04.Props", expect_min=21)
     if have_tie and ok:
         ctx.audit("GojaModel.C04.Tie", expect_min=1)
     if ctx.tier == "thorough" and ok:
@@ -505,8 +485,8 @@ def main(ctx):
         c.setdefault("monitored", False)
         corpus.append(c)
 
-    variant = table_check(ctx, h, model)
-    ctx.log("table done %.1fs variant=%s" % (time.time() - t0, variant))
+    table_ok = table_check(ctx, h, model)
+    ctx.log("table done %.1fs ok=%s" % (time.time() - t0, table_ok))
 
     # ---------------- sequences
     n_mod = 2500 if quick else 12000
@@ -578,7 +558,7 @@ def main(ctx):
         kind = c["objs"][int(op[2][1:])][0] if len(op) > 2 and op[2][1:].isdigit() else "?"
         if op[0] in ("frz", "seal"):
             kind = c["objs"][int(op[1][1:])][0]
-        if op[0] in ("def", "frz", "seal") and kind in ("gomap", "gostruct", "goslice", "u8") and "nil pointer" in l:
+        if op[0] == "def" and kind == "goslice" and norm_key(op[3]) == "slength" and "nil pointer" in l:
             sig = SIG_NIL_PANIC + kind
         else:
             sig = "panic:%s:%s" % (kind, op[0] + op[1])
@@ -599,42 +579,50 @@ def main(ctx):
                     cyc[kind] = (c, li, l)
     ctx.stats["prototype_cycles_by_kind"] = {k: 1 for k in cyc}
     for kind, (c, li, l) in cyc.items():
-        sig = SIG_DYN_CYCLE if kind == "dyn" else "proto-cycle:" + kind
+        sig = "proto-cycle:" + kind
         ctx.violation(sig, "[[SetPrototypeOf]] created a prototype cycle through a %s object (every later lookup of a missing key / for-in spins): %s"
                       % (kind, case_lines(c)[li]),
                       {"kind": "history", "objs": c["objs"], "ops": c["ops"][:li - len(c["objs"])], "lines": case_lines(c)[:li + 1], "observed": l[:300]})
 
-    # diverging modelled sequences: shrink, classify
-    known_like, shrunk = 0, 0
-    seq_ok = True
-    budget = 4 if quick else 20
-    diverging.sort(key=lambda t: (any(" !kind" in l for l in t[2][:t[3] + 1]), len(t[0]["ops"])))
-    for c, impl, mdl, d in diverging:
-        marker_before = any(" !kind" in l for l in mdl[:d + 1])
-        if marker_before and variant == "cur" and shrunk >= budget:
-            known_like += 1
-            continue
-        if shrunk >= budget * 2:
-            seq_ok = False
+    # diverging modelled sequences: shrink, report (the spec-level model is the judge).  A divergence is tolerated only if
+    # it is attributed to a `known` finding.
+    shrunk = 0
+    budget = 6 if quick else 20
+    diverging.sort(key=lambda t: len(t[0]["ops"]))
+    unexplained = 0
+    sig_count = {}
+    for n, (c, impl, mdl, d) in enumerate(diverging):
+        lines = case_lines(c)
+        sig0 = seq_signature(c, lines, d)
+        sig_count[sig0 if not sig0.startswith("seq:") else "seq:*"] = sig_count.get(sig0 if not sig0.startswith("seq:") else "seq:*", 0) + 1
+        if ctx.known_signature(sig0) is not None and any(h["signature"] == sig0 for h in ctx.known_hits):
+            continue                                    # same known class already reported with a concrete replay
+        if shrunk >= budget:
+            if ctx.known_signature(sig0) is None:
+                unexplained += 1
             continue
         shrunk += 1
         small = shrink_case(ctx, h, model, c) if model else c
-        lines = case_lines(small)
-        a, b = single_run(h, model, lines)
-        sig = seq_signature(small, a, b, variant)
+        slines = case_lines(small)
+        a, b = single_run(h, model, slines)
         dd = first_diff(small, a, b)
+        if dd is None:
+            # did not reproduce in isolation: report the unshrunk case
+            small, slines, a, b, dd = c, lines, impl, mdl, d
+        sig = seq_signature(small, slines, dd)
         st = ctx.violation(sig, "implementation diverges from the spec model at op %s: impl=%s model=%s"
-                           % (lines[dd] if dd is not None and dd < len(lines) else "?",
-                              (strip_impl(a[dd])[0][:160] if dd is not None and dd < len(a) else "?"),
-                              (strip_model(b[dd])[:160] if dd is not None and dd < len(b) else "?")),
-                           {"kind": "history", "objs": small["objs"], "ops": small["ops"], "lines": lines,
+                           % (slines[dd] if dd < len(slines) else "?",
+                              (strip_impl(a[dd])[0][:160] if dd < len(a) else "?"),
+                              (strip_model(b[dd])[:160] if dd < len(b) else "?")),
+                           {"kind": "history", "objs": small["objs"], "ops": small["ops"], "lines": slines,
                             "expected": [strip_model(x) for x in b], "observed": [strip_impl(x)[0] for x in a]})
         if st != "known":
-            seq_ok = False
+            unexplained += 1
     ctx.stats["diverging_sequences"] = len(diverging)
-    ctx.stats["diverging_attributed_to_known_kind_change_defects_unshrunk"] = known_like
-    ctx.obligation("corr:op-sequences(modelled kinds)", "correspondence", seq_ok,
-                   "%d modelled sequences, %d diverging (%d shrunk and classified)" % (ctx.stats["cases_modelled"], len(diverging), shrunk))
+    ctx.stats["diverging_by_class"] = sig_count
+    ctx.obligation("corr:op-sequences(modelled kinds)", "correspondence", unexplained == 0,
+                   "%d modelled sequences, %d diverging (%d shrunk), %d not attributed to a known finding"
+                   % (ctx.stats["cases_modelled"], len(diverging), shrunk, unexplained))
 
     # monitor on all dumped states
     if model:
@@ -690,16 +678,14 @@ def replay(ctx, path):
     model = ctx.model_exe()
     if rp.get("mode") == "table":
         cell = rp["cell"]
-        line = "T 0 " + " ".join(map(str, cell))
+        line = "T " + " ".join(map(str, cell))
         a, b = single_run(h, model, [line])
-        a1, b1 = single_run(h, model, [line.replace("T 0", "T 1", 1)])
         j, _ = single_run(model, model, ["J " + " ".join(map(str, cell)) + " " + a[0]])
-        print("cell        :", cell)
+        print("cell          :", cell)
         print("implementation:", a[0])
-        print("model (cur)   :", b[0])
-        print("model (fixed) :", b1[0])
+        print("model         :", b[0])
         print("spec verdict on implementation result:", j[0])
-        return 0 if j[0] in ("ok", "na") else 1
+        return 0 if j[0].split(" ", 1)[-1] in ("ok", "na") and a[0] == b[0].split(" ; ")[0] else 1
     lines = rp.get("lines") or case_lines(rp)
     a, b = single_run(h, model, lines)
     rc = 0
